@@ -195,6 +195,65 @@ func F4(maxOps int, yield func(Program)) {
 	rec(0, maxOps, map[int]*N{})
 }
 
+// F4c streams the closure variant of F4: the name x is a local of the enclosing function f and
+// every placement of up to maxOps operations on x goes into the inner function g, whose body has
+// two consecutive top-level slots, two levels of nested blocks, a loop body and a trailing slot.
+// A capture of f's x, a later shadowing declaration in g and uses from deeper blocks all meet
+// here; f prints its own x after calling g, so a write through the wrong binding shows.
+func F4c(maxOps int, yield func(Program)) {
+	ops := []func(k int64) *N{
+		func(k int64) *N { return Var("x", Int(k)) },
+		func(k int64) *N { return Set1("x", Int(k)) },
+		func(k int64) *N { return emitE(Id("x")) },
+		func(k int64) *N { return Inc("x", "++") },
+		func(k int64) *N { return Assign(Id("x"), "+=", Int(k)) },
+		func(k int64) *N { return Var("y", Id("x")) },
+	}
+	const slots = 7
+	build := func(fill map[int]*N) Program {
+		s := func(i int) []*N {
+			if n, ok := fill[i]; ok {
+				return []*N{n}
+			}
+			return nil
+		}
+		cat := func(parts ...[]*N) []*N {
+			var out []*N
+			for _, p := range parts {
+				out = append(out, p...)
+			}
+			return out
+		}
+		deep := If(Bool(true), cat(s(3), []*N{emitN(103)}), nil)
+		blk := If(Bool(true), cat(s(2), []*N{deep}, s(4)), nil)
+		loop := ForRange("i", Int(2), cat(s(5), []*N{emitN(105)})...)
+		g := FuncDecl("g", nil, cat(s(0), s(1), []*N{blk, loop}, s(6), []*N{emitN(106)})...)
+		f := FuncDecl("f", nil, Var("x", Int(1)), g, Expr(callE("g")), emitE(Id("x")), Expr(callE("g")), emitE(Id("x")), Return(Id("x")))
+		return Program{Fam: "F4c", Prog: []*N{f, Expr(callE("f"))}}
+	}
+	var rec func(start, left int, fill map[int]*N)
+	rec = func(start, left int, fill map[int]*N) {
+		if len(fill) > 0 {
+			cp := map[int]*N{}
+			for k, v := range fill {
+				cp[k] = Clone(v)
+			}
+			yield(build(cp))
+		}
+		if left == 0 {
+			return
+		}
+		for i := start; i < slots; i++ {
+			for oi, op := range ops {
+				fill[i] = op(int64(10*i + oi))
+				rec(i+1, left-1, fill)
+				delete(fill, i)
+			}
+		}
+	}
+	rec(0, maxOps, map[int]*N{})
+}
+
 // ------------------------------------------------------------------ F5 containers and strings
 
 func F5(yield func(Program)) {
@@ -454,6 +513,7 @@ func Corpus(thorough bool, yield func(Program)) {
 	F1Prefix(ValuePool(6), yield)
 	F3(yield)
 	F4(f4ops, yield)
+	F4c(2, yield)
 	F5(yield)
 	F6(yield)
 	C02(thorough, yield)
